@@ -314,6 +314,8 @@ def rule_validation(ctx, res):
         gsym.run()
         okh = False
         okw = False
+        # any fixed byte order binds the whole secret (the token only has to be a function of all of (ip, secret))
+        secret_bytes = lambda t: [c for n in ('to_be_bytes', 'to_le_bytes', 'to_ne_bytes') for c in find_calls(t, n)]
         for p in gsym.paths:
             if p.end == 'return':
                 sh = find_calls(p.ret, 'InfoHash::sha1')
@@ -325,15 +327,44 @@ def rule_validation(ctx, res):
                     dstbuf = strip_transparent(dst[2][0]) if dst[0] == 'call' and dst[1].endswith('iter_mut') else None
                     ch = strip_transparent(z[2][1])
                     srcs = fmt(ch)
-                    okh = (dstbuf == buf and ch[0] == 'call' and ch[1].endswith('Iterator::chain') and find_calls(ch, octets.split('::')[-1]) and find_calls(ch, 'to_be_bytes')
-                           and is_param(strip_transparent(find_calls(ch, 'to_be_bytes')[0][2][0]), 'secret'))
+                    okh = (dstbuf == buf and ch[0] == 'call' and ch[1].endswith('Iterator::chain') and find_calls(ch, octets.split('::')[-1]) and secret_bytes(ch)
+                           and is_param(strip_transparent(secret_bytes(ch)[0][2][0]), 'secret'))
                     if buf[0] == 'repeat' and str(buf[2]).strip() not in (str(ln), '%d_usize' % ln):
                         pass
+                sps = [e for e in p.effects if e[0] == 'call' and e[1] and e[1].split('::')[-1] in ('split_at_mut',)]
+                cfs = [e for e in p.effects if e[0] == 'call' and e[1] and e[1].split('::')[-1] == 'copy_from_slice']
+                if sh and not zips and len(sps) == 1 and len(cfs) == 2:
+                    # form B: `let (a, s) = buffer.split_at_mut(octets.len()); a.copy_from_slice(&octets); s.copy_from_slice(&secret.to_be_bytes())`
+                    # (the halves of a split cover the buffer; that both copies fit exactly is the copy_from_slice panic obligation of C14/C15)
+                    from . import ranges
+                    sp = sps[0]
+                    order = [e for e in p.effects if e[0] == 'call']
+                    pos = {id(e): i for i, e in enumerate(order)}
+                    shc = [e for e in order if e[1] == sh[0][1] and e[3] == sh[0][3]]
+                    def mir_root(e):
+                        t = g.blocks[e[3]]['term']
+                        return ranges._root_place(g, t['args'][0]) if t.get('k') == 'call' and t.get('args') else None
+                    same_buf = bool(shc) and mir_root(shc[0]) is not None and ranges._same_place(mir_root(shc[0]), mir_root(sp)) and not mir_root(sp)['p']
+                    def part_of(e):
+                        d = strip_transparent(e[2][0])
+                        return d[2] if isinstance(d, tuple) and len(d) == 3 and d[0] == 'field' and d[1][:2] == sp[:2] and d[1][3] == sp[3] else None
+                    def is_octets(t):
+                        t = strip_transparent(t)
+                        return isinstance(t, tuple) and t[0] == 'call' and t[1].endswith(octets) and is_param(strip_transparent(t[2][0])) and strip_transparent(t[2][0])[1] == 1
+                    def is_secret(t):
+                        t = strip_transparent(t)
+                        return isinstance(t, tuple) and t[0] == 'call' and t[1].split('::')[-1] in ('to_be_bytes', 'to_le_bytes', 'to_ne_bytes') and is_param(strip_transparent(t[2][0]), 'secret')
+                    mid = strip_transparent(sp[2][1])
+                    mid_ok = (isinstance(mid, tuple) and mid[0] == 'call' and mid[1].split('::')[-1] == 'len' and is_octets(mid[2][0])) or term_int(mid) == ln - 4
+                    srcs = {part_of(e): e[2][1] for e in cfs}
+                    if same_buf and mid_ok and set(srcs) == {'0', '1'} and is_octets(srcs['0']) and is_secret(srcs['1']) \
+                            and shc and all(pos[id(e)] < pos[id(shc[0])] for e in cfs):
+                        okh = okw = True
             if p.end == 'loop':
                 for e in lib.writes_of(p):
                     if field_chain(e[1])[-1:] == ['0'] and field_chain(e[2])[-1:] == ['1']:
                         okw = True
-        res.check(okh and okw, 'FLOW', g.path, 'token = SHA-1 over a buffer filled with (address octets || secret big-endian bytes)')
+        res.check(okh and okw, 'FLOW', g.path, 'token = SHA-1 over a buffer filled with (address octets || all secret bytes)')
     c4 = ctx.f.const_value('token::IPV4_SECRET_BUFFER_LEN')
     c6 = ctx.f.const_value('token::IPV6_SECRET_BUFFER_LEN')
     res.check(c4 == 8 and c6 == 20, 'CONST', 'token::IPV*_SECRET_BUFFER_LEN', 'hash buffers hold all address octets and all 4 secret bytes (8 / 20): the zip does not truncate the secret', detail='%s %s' % (c4, c6))
